@@ -257,3 +257,80 @@ func reachesBlock(a, b *ssa.BasicBlock) bool {
 	}
 	return false
 }
+
+// resultValues resolves the idx-th operand of a Return to the values it may
+// carry, looking through the result spill slots that go/ssa introduces in
+// functions with defer statements (`*t0 = v; rundefers; t7 = *t0; return t7`).
+func resultValues(ret *ssa.Return, idx int) []ssa.Value {
+	if idx >= len(ret.Results) {
+		return nil
+	}
+	v := ret.Results[idx]
+	u, ok := v.(*ssa.UnOp)
+	if !ok || u.Op != token.MUL {
+		return []ssa.Value{v}
+	}
+	a, ok := u.X.(*ssa.Alloc)
+	if !ok || a.Heap {
+		return []ssa.Value{v}
+	}
+	// latest store to a in the same block before the load
+	blk := u.Block()
+	var last ssa.Value
+	for _, ins := range blk.Instrs {
+		if ins == ssa.Instruction(u) {
+			break
+		}
+		if st, ok := ins.(*ssa.Store); ok && st.Addr == ssa.Value(a) {
+			last = st.Val
+		}
+	}
+	if last != nil {
+		return []ssa.Value{last}
+	}
+	var out []ssa.Value
+	for _, ref := range *a.Referrers() {
+		if st, ok := ref.(*ssa.Store); ok && st.Addr == ssa.Value(a) {
+			out = append(out, st.Val)
+		}
+	}
+	if len(out) == 0 {
+		return []ssa.Value{v}
+	}
+	return out
+}
+
+// feedsReturn reports whether v is (directly, through a phi, or through a
+// result spill slot) an operand of a Return.
+func feedsReturn(v ssa.Value, depth int) bool {
+	if depth > 4 {
+		return false
+	}
+	refs := v.Referrers()
+	if refs == nil {
+		return false
+	}
+	for _, ref := range *refs {
+		switch x := ref.(type) {
+		case *ssa.Return:
+			return true
+		case *ssa.Phi:
+			if feedsReturn(x, depth+1) {
+				return true
+			}
+		case *ssa.Store:
+			if a, ok := x.Addr.(*ssa.Alloc); ok && !a.Heap && x.Val == v {
+				for _, r2 := range *a.Referrers() {
+					if u, ok := r2.(*ssa.UnOp); ok && feedsReturn(u, depth+1) {
+						return true
+					}
+				}
+			}
+		case *ssa.MakeInterface:
+			if feedsReturn(x, depth+1) {
+				return true
+			}
+		}
+	}
+	return false
+}
